@@ -1666,3 +1666,67 @@ func c05r12(rc *core.RC) {
 		rc.Unknown("validNumber/copies", token.NoPos, "found %d of the two copies of validNumber", n)
 	}
 }
+
+// ---- C05.R13 who may call the mid-container skippers ----
+
+// skipObject and skipArray (buffer and stream forms) enter a container behind its opening bracket and step over the
+// rest with the lax scanners: nothing is stored, numbers are not validated, keys are not looked up, duplicate and
+// unknown keys pass. Only two kinds of caller may do that: skipValue (the caller of which decided to ignore the whole
+// value) and the exit of the struct decoder taken under the FirstWin option when every field has been seen. A typed
+// decoder that hands the rest of its input to them accepts what encoding/json rejects and skips what it stores.
+func c05r13(rc *core.RC) {
+	p := rc.P
+	allowed := map[string]string{
+		"decoder.skipValue":                  "",
+		"decoder.(*Stream).skipValue":           "",
+		"decoder.(*structDecoder).Decode":       "firstWin",
+		"decoder.(*structDecoder).DecodeStream": "firstWin",
+	}
+	n := 0
+	for _, fd := range p.Funcs("decoder") {
+		if fd.Body == nil {
+			continue
+		}
+		info := p.Info(fd)
+		fn := p.FuncName(fd)
+		k := 0
+		ast.Inspect(fd.Body, func(x ast.Node) bool {
+			call, ok := x.(*ast.CallExpr)
+			if !ok {
+				return true
+			}
+			callee := core.Callee(info, call)
+			if callee == nil || callee.Pkg() == nil || callee.Pkg().Name() != "decoder" || (callee.Name() != "skipObject" && callee.Name() != "skipArray") {
+				return true
+			}
+			if fn == "decoder.skipObject" || fn == "decoder.skipArray" || fn == "decoder.(*Stream).skipObject" || fn == "decoder.(*Stream).skipArray" {
+				return true // the skippers recurse into each other
+			}
+			n++
+			k++
+			rc.CallSites++
+			rc.Touch(fn)
+			key := fmt.Sprintf("%s/calls %s#%d may-skip-mid-container", fn, callee.Name(), k)
+			need, ok := allowed[fn]
+			if !ok {
+				rc.Bad(key, call.Pos(), "%s hands the rest of a container to %s: the lax scanner stores nothing and validates neither numbers nor keys; only skipValue and the FirstWin exit of the struct decoder may (members that a typed decoder has to store or reject are stepped over)", fn, callee.Name())
+				return true
+			}
+			if need == "" {
+				rc.OK(key, call.Pos(), "%s is the skipper of whole values", fn)
+				return true
+			}
+			under := false
+			for _, c := range condChain(p, info, fd, call) {
+				if c.pos && strings.Contains(c.text, need) {
+					under = true
+				}
+			}
+			rc.Check(under, key, call.Pos(), "%s calls %s only under the FirstWin option (every field seen, the rest is ignored by definition of the option)", fn, callee.Name())
+			return true
+		})
+	}
+	if n < 6 {
+		rc.Unknown("decoder/mid-container-skippers", token.NoPos, "found %d calls of skipObject/skipArray outside the skippers (confirmed: 6)", n)
+	}
+}
